@@ -59,10 +59,25 @@ inline Problem<DIM> gen_problem(uint64_t seed, int N, int order, int domain, boo
     p.T = gen_durations(r, N, order, domain);
     {
         double u = r.unit();
+        if (u < 0.05)
+        {
+            // nearly (not exactly) equally spaced
+            double base = p.T[0];
+            for (int i = 0; i < N; ++i) p.T[i] = base * (1.0 + 5e-10 * (double)r.range(-1, 1));
+        }
+        else if (u < 0.12)
+        {
+            // "human" grids: durations and start with two decimals (their binary sums round in interesting ways)
+            for (int i = 0; i < N; ++i) p.T[i] = std::max(0.1, std::round(p.T[i] * 100.0) / 100.0);
+        }
+    }
+    {
+        double u = r.unit();
         double span = 0.0;
         for (double t : p.T) span += t;
         // zero, a negative start with t = 0 inside the trajectory, or anywhere
         p.t0 = u < 0.25 ? 0.0 : (u < 0.4 ? -span * r.unit() : r.real(-1000.0, 1000.0));
+        if (r.chance(0.15)) p.t0 = std::round(p.t0 * 100.0) / 100.0;
     }
     p.by_points = by_points;
     p.tp.resize(N + 1);
